@@ -11,6 +11,23 @@ import contextlib
 import numpy
 
 
+# number of times code of the library under test reached around a scripted generator (took its bit generator to build
+# another generator from it): the draws it then makes are real random numbers, not the scripted ones, so whatever a
+# draw-injection clause concludes in that case is not claimed (mc/core.py compares this counter around each case)
+SEAM_BYPASSED = [0]
+
+
+def _called_from_library():
+    import sys
+    try:
+        from . import repo
+        root = repo.REPO.rstrip("/") + "/"
+        f = sys._getframe(2)
+        return f.f_code.co_filename.startswith(root)
+    except Exception:
+        return False
+
+
 class SeqGenerator(numpy.random.Generator):
     """Generator whose normal() answers come from `values` (flat, in call order).
     After the preset values are exhausted it returns zeros.  Any other distribution
@@ -27,6 +44,12 @@ class SeqGenerator(numpy.random.Generator):
             self.calls = []          # list of requested sizes
         else:                        # a spawned child: same preset stream, same cursor, same request log
             self._values, self._state, self.calls = _share._values, _share._state, _share.calls
+
+    @property
+    def bit_generator(self):
+        if _called_from_library():
+            SEAM_BYPASSED[0] += 1
+        return numpy.random.Generator.bit_generator.__get__(self)
 
     @property
     def _pos(self):
